@@ -18,14 +18,16 @@ What is proved:
        (`C05Tsc_resync_shift`); hence a later tsc can be converted below an earlier one by at most `drift + ε`
        (`C05Tsc_inversion_bound`), never when the old line is behind (`C05Tsc_no_inversion_when_behind`) or when the two
        statements are further apart than `drift + ε` (`C05Tsc_no_inversion_beyond_drift`);
-       **the bound is attained by the code as it is** (finding F33): `C05Tsc_backstep_witness` — one thread, grace period
+       **the bound is attained by the code as it is** (finding F38): `C05Tsc_backstep_witness` — one thread, grace period
        on, both statements enqueued at once: the sink receives timestamps W+1002100 then W+1001650;
        `C05Tsc_inversion_witness` — two threads: the statement whose log call began later is written first;
  (iii) per-thread order and conservation do not depend on the conversion (`C05Tsc_thread_order_any_conversion`), and the
        pop rule takes a least converted front (`C05Tsc_pop_takes_least_converted`).
 
-NOT claimed (TODO, waits for the coordinator's decision on F33): "the backend writes the statements of TSC loggers in
-non-decreasing timestamp order" across a resync.
+       `C05Tsc_gate_needed`: the `ts_now` gate must follow the conversion for TSC loggers too (seeded change C05/m2).
+
+NOT claimed: "the backend writes the statements of TSC loggers in non-decreasing timestamp order" across a resync — false of the
+code as it is (F38, listed in known_findings.json; the check reports its input class as KNOWN-FINDING).
 -/
 namespace Tsc
 
@@ -65,6 +67,17 @@ theorem C05Tsc_inversion_bound {sc : Int → Int} {ε : Int} (hs : ScaleOK sc ε
   have s := (shift_bound hs old new wo wn wb).1
   omega
 
+/-- The other direction: the **earlier** statement is converted after the resync (it sat in another thread's queue), the later
+    one before it — a forward step of the base (old line behind the wall clock, `drift < 0`) lifts the earlier statement above
+    the later one by at most `-drift + ε`. Either sign of the drift can therefore invert two threads; only a positive drift can make
+    the timestamps of ONE thread decrease. -/
+theorem C05Tsc_inversion_bound_forward {sc : Int → Int} {ε : Int} (hs : ScaleOK sc ε) (old new : Base) {t1 t2 : Nat}
+    (w1 : InWin old.tsc t1) (wn : InWin new.tsc t1) (w2 : InWin old.tsc t2) (wb : InWin old.tsc new.tsc) (le : t1 ≤ t2) :
+    convAt sc new t1 - convAt sc old t2 ≤ -(drift sc old new) + ε := by
+  have m := conv_mono hs old w1 w2 le
+  have s := (shift_bound hs old new w1 wn wb).2
+  omega
+
 theorem C05Tsc_no_inversion_when_behind {sc : Int → Int} {ε : Int} (hs : ScaleOK sc ε) (old new : Base) {t1 t2 : Nat}
     (w1 : InWin old.tsc t1) (wo : InWin old.tsc t2) (wn : InWin new.tsc t2) (wb : InWin old.tsc new.tsc) (le : t1 ≤ t2)
     (hd : drift sc old new + ε ≤ 0) : convAt sc old t1 ≤ convAt sc new t2 := by
@@ -80,7 +93,7 @@ theorem C05Tsc_no_inversion_beyond_drift {sc : Int → Int} {ε : Int} (hs : Sca
 /-- the exact rational scaling is an instance (non-vacuity of `ScaleOK`, and the reference of the `within 1 ns` check) -/
 theorem C05Tsc_exact_scale_ok (num k : Nat) : ScaleOK (scaleExact num k) 1 := scaleExact_ok num k
 
-/-! ### witnesses: the bound is attained (finding F33) — the scripts of `corpus/C05/tsc_resync_*.e2e.txt` -/
+/-! ### witnesses: the bound is attained (finding F38) — the scripts of `corpus/C05/tsc_resync_*.e2e.txt` -/
 
 /-- `ns_per_tick = 1.0` -/
 def sc1 : Int → Int := scaleExact 1 0
@@ -103,7 +116,7 @@ def wBackstep : List POp :=
 def wInversion : List POp :=
   [.decode 1 1 2002100 wNow [wRead], .decode 2 2 2002150 wNow [wRead], .pop, .pop]
 
-/-- **Finding F33, one thread.** Grace period on, both statements pass the `ts_now` gate, and the sink receives B with
+/-- **Finding F38, one thread.** Grace period on, both statements pass the `ts_now` gate, and the sink receives B with
     W+1002100 and then C with W+1001650: the written timestamps decrease by 450 ns (= drift − 50 ticks). -/
 theorem C05Tsc_backstep_witness :
     ((prun Params.code sc1 { clock := wClock } wBackstep).written.map (fun e => (e.id, e.tsc, e.ts)))
@@ -111,7 +124,7 @@ theorem C05Tsc_backstep_witness :
     drift sc1 ⟨1700000000000002000, 1002000⟩ ⟨1700000000001006500, 2007000⟩ = 500 := by
   decide +kernel
 
-/-- **Finding F33, two threads.** Same clock values; the pop rule takes the least converted front: C (log call started at
+/-- **Finding F38, two threads.** Same clock values; the pop rule takes the least converted front: C (log call started at
     tsc 2002150) is written before B (tsc 2002100). -/
 theorem C05Tsc_inversion_witness :
     ((prun Params.code sc1 { clock := wClock } wInversion).written.map (fun e => (e.id, e.th, e.tsc, e.ts)))
@@ -122,6 +135,30 @@ theorem C05Tsc_inversion_witness :
     with 450 ≤ 500 + 1 -/
 example : InWin 1002000 2002100 ∧ InWin 1002000 2002150 ∧ InWin 2007000 2002150 ∧ InWin 1002000 2007000 ∧
     convAt sc1 ⟨1700000000000002000, 1002000⟩ 2002100 - convAt sc1 ⟨1700000000001006500, 2007000⟩ 2002150 = 450 := by
+  decide +kernel
+
+/-! ### the `ts_now` gate applies to TSC loggers (after the conversion) — seeded change C05/m2 -/
+
+/-- the schedule of `corpus/C05/tsc_gate_window.e2e.txt` with an exact conversion: inside one pass, after thread 1's queue was read,
+    thread 1 logs a1 (tsc 1010100) and thread 2 logs b1 (tsc 1010600); the pass (`ts_now` = W+9000) reads thread 2's queue and
+    pops; the next pass (`ts_now` = W+19000) reads both queues and pops -/
+def gClock : Clock :=
+  { b1 := ⟨1700000000000005000, 1005000⟩, version := 1, interval := 1000000000, intervalOrig := 1000000000, epoch := 1 }
+
+def gPass1 : List POp := [.decode 2 2 1010600 (some 1700000000000009000) [], .pop]
+def gPass2 (b1Left : Bool) : List POp :=
+  [.decode 1 1 1010100 (some 1700000000000019000) []] ++
+  (if b1Left then [.decode 2 2 1010600 (some 1700000000000019000) []] else []) ++ [.pop, .pop]
+
+/-- **The gate is needed for TSC loggers.** Code as it is: b1 is newer than `ts_now`, is not consumed by the first pass, and the
+    second pass writes a1 then b1. With the gate skipped for TSC loggers (`gateAfterConv = false`: the `else if` of seeded change
+    C05/m2) the first pass caches and writes b1 and a1 follows it — decreasing timestamps although both statements were enqueued
+    at once (the grace-period premise holds) and no resync took place. -/
+theorem C05Tsc_gate_needed :
+    ((prun Params.code sc1 { clock := gClock } (gPass1 ++ gPass2 true)).written.map (fun e => (e.id, e.ts)))
+      = [(1, 1700000000000010100), (2, 1700000000000010600)] ∧
+    ((prun { Params.code with gateAfterConv := false } sc1 { clock := gClock } (gPass1 ++ gPass2 false)).written.map
+        (fun e => (e.id, e.ts))) = [(2, 1700000000000010600), (1, 1700000000000010100)] := by
   decide +kernel
 
 /-! ### (iii) the conversion does not enter the per-thread order or the exactly-once argument -/
